@@ -606,6 +606,60 @@ def batch_numpy_target_names(ctx):
                    identifiers=gen_ids)
 
 
+def batch_reserved_index_names(ctx):
+    """user names from the reserved patterns of doc/design.rst that are used INSIDE index lambdas (`_<k>` index
+    variables — compulsory —, `_r<k>` reduction indices, `_in<k>` binding names): rejected, or kept distinct from
+    the generated identifier — never silently merged with it"""
+    import pytato as pt
+    names = ["_0", "_1", "_2", "_12", "_r0", "_r1", "_in0", "_in1", "_in2"]
+    xv, bv = np.arange(4.0) + 1, np.arange(4.0) * 2 - 1
+    m = np.arange(12.0).reshape(4, 3)
+    jobs, meta, rejected = [], [], 0
+    for nm in names:
+        for role in ("vector", "matrix", "size-param"):
+            try:
+                if role == "vector":
+                    a = pt.make_placeholder(nm, (4,), np.float64)
+                    b = pt.make_placeholder("b", (4,), np.float64)
+                    expr = pt.make_dict_of_named_arrays({"o": a * 2 + pt.sum(a * b), "p": (a + b)[::-1]})
+                    run, ref = {nm: xv, "b": bv}, {"o": xv * 2 + np.sum(xv * bv), "p": (xv + bv)[::-1]}
+                elif role == "matrix":
+                    a = pt.make_placeholder(nm, (4, 3), np.float64)
+                    expr = pt.make_dict_of_named_arrays({"o": pt.sum(a.T @ a, axis=0) + a[1], "p": pt.roll(a, 1, 0)})
+                    run, ref = {nm: m}, {"o": np.sum(m.T @ m, axis=0) + m[1], "p": np.roll(m, 1, 0)}
+                else:
+                    n = pt.make_size_param(nm)
+                    a = pt.make_placeholder("a", (n,), np.float64)
+                    expr = pt.make_dict_of_named_arrays({"o": a * 2 + pt.roll(a, 1)})
+                    run, ref = {"a": xv, nm: 4}, {"o": xv * 2 + np.roll(xv, 1)}
+            except ValueError:
+                rejected += 1
+                continue
+            jobs.append(cexec.Job(tag=f"{role}:{nm}", expr=expr, runs=[run], kir_orders=0))
+            meta.append((nm, role, ref))
+    dis = 0
+    for (nm, role, ref), r in zip(meta, cexec.run_jobs(ctx, jobs)):
+        if r.error and r.stage in ("generate", "prep") and r.error_class in ("ValueError", "NameClashError"):
+            rejected += 1
+            continue
+        if r.error and str(r.stage).startswith("c-"):
+            continue        # executor limitation (symbolic shapes through the C invoker): names were accepted, see kir
+        if r.error:
+            dis += 1
+            ctx.violation("names:reserved-index-variable-name-accepted",
+                          f"{role} called {nm!r} (a reserved identifier of index lambdas) is accepted, and code generation "
+                          f"fails at stage {r.stage}: {str(r.error).splitlines()[0][:140]}", {"name": nm, "role": role})
+            continue
+        from ..refeval import close
+        bad = [k for k in ref if not r.outputs or not close(r.outputs[0].get(k), ref[k])]
+        if bad:
+            dis += 1
+            ctx.violation("names:reserved-index-variable-name-accepted",
+                          f"{role} called {nm!r} is accepted and silently merged with a generated identifier: outputs {bad} "
+                          f"differ from NumPy", {"name": nm, "role": role})
+    ctx.note_batch("reserved-index-variable-names", len(names) * 3, dis, exhaustive=False, rejected=rejected, names=names)
+
+
 def batch_c_keywords(ctx):
     """user names that are keywords of C (the language loopy's targets print): the argument must appear under exactly
     that name in a program that works, or the name must be refused with a diagnostic — a kernel that does not
@@ -649,6 +703,7 @@ def run(ctx: common.Ctx):
     batch_scenarios(ctx)
     batch_numpy_target_names(ctx)
     batch_c_keywords(ctx)
+    batch_reserved_index_names(ctx)
     ctx.broken = sorted(set(ctx.broken))[:50]
 
 
